@@ -41,10 +41,14 @@ CONSTANTS Sess,       \* session names
           MaxEmit,    \* notifications per handler
           MaxSreq,    \* server->client requests per handler
           MaxSa,      \* notifications outside any request, per session
+          MaxBc,      \* broadcasts (Server.ResourceUpdated called with a handler's context), per handler
+          DupOf,      \* function: requests that re-use the JSON-RPC id of another request of the session
           Gates       \* may the environment hold writes / replays inside the stream lock?
 
 None == "none"
 Streams == Reqs \cup {"sa"}
+Origins == Streams \cup {"bc"}       \* who writes: the handler of a request, code outside any request, a broadcast
+WireId(r) == IF r \in DOMAIN DupOf THEN DupOf[r] ELSE r
 PX(s, r) == "p." \o s \o "." \o r
 Posts == {PX(s, r) : s \in Sess, r \in Reqs}
 Exch == Posts \cup Gets
@@ -94,27 +98,41 @@ Init ==
   /\ tlock = [s \in Sess |-> [t \in Streams |-> None]]
   /\ x = [e \in Exch |-> NoExch]
   /\ recv = [e \in Exch |-> <<>>]
-  /\ h = [s \in Sess |-> [r \in Reqs |-> [pc |-> "none", n |-> 0, q |-> 0]]]
-  /\ wr = [s \in Sess |-> [o \in Streams |-> NoWrite]]
+  /\ h = [s \in Sess |-> [r \in Reqs |-> [pc |-> "none", n |-> 0, q |-> 0, b |-> 0]]]
+  /\ wr = [s \in Sess |-> [o \in Origins |-> NoWrite]]
   /\ nsa = [s \in Sess |-> 0]
   /\ issued = [s \in Sess |-> [t \in Streams |-> {}]]
   /\ okEnd = [e \in Exch |-> TRUE]
 
 -----------------------------------------------------------------------------
-\* POST of a call (servePOST).  The stream is registered in c.streams / c.requestStreams before the
-\* call is published to the session; the priming event is appended to the store and written first.
-Post(s, r) ==
-  LET e == PX(s, r) pr == Primed(s) IN
-  /\ alive[s] /\ x[e].pc = "idle" /\ h[s][r].pc = "none"
-  /\ Stateless => \A r2 \in Reqs : h[s][r2].pc = "none"
-  /\ str' = [str EXCEPT ![s][r] = [ex |-> TRUE, reqs |-> {r}, w |-> e, open |-> TRUE,
-                                   lastIdx |-> IF pr THEN 0 ELSE -1, json |-> Json, pend |-> <<>>]]
-  /\ rs' = [rs EXCEPT ![s] = @ \cup {r}]
-  /\ log' = IF pr THEN [log EXCEPT ![s][r] = <<PrimePl(s, r)>>] ELSE log
-  /\ recv' = IF pr THEN [recv EXCEPT ![e] = <<[idx |-> 0, pl |-> PrimePl(s, r)]>>] ELSE recv
-  /\ issued' = IF pr THEN [issued EXCEPT ![s][r] = {0}] ELSE issued
-  /\ x' = [x EXCEPT ![e] = [NoExch EXCEPT !.pc = "hang", !.s = s, !.st = r, !.status = 200, !.obj = "real"]]
-  /\ h' = [h EXCEPT ![s][r].pc = "run"]
+\* POST of a call (servePOST).  newStream (EventStore.Open) runs before any lock is taken: the
+\* environment may hold the POST there.
+PostStart(s, r, g) ==
+  LET e == PX(s, r) IN
+  /\ alive[s] /\ x[e].pc = "idle" /\ h[s][r].pc = "none" /\ g \in GateChoice
+  /\ Stateless => \A r2 \in Reqs : h[s][r2].pc = "none" /\ x[PX(s, r2)].pc = "idle"
+  /\ x' = [x EXCEPT ![e] = [NoExch EXCEPT !.pc = "open", !.s = s, !.st = r, !.obj = "real", !.held = g]]
+  /\ UNCHANGED <<cfg, alive, str, tmp, rs, log, lock, tlock, recv, h, wr, nsa, issued, okEnd>>
+
+\* One critical section (c.mu): a call whose JSON-RPC id is in flight on the session is refused, otherwise
+\* the stream is registered in c.streams / c.requestStreams -- atomically, and BEFORE the call is published
+\* to the session.  Then the priming event is appended to the store and written, and the handler starts.
+PostReg(s, r) ==
+  LET e == PX(s, r) pr == Primed(s)
+      clash == \E q \in rs[s] : WireId(q) = WireId(r)
+  IN
+  /\ x[e].pc = "open" /\ ~x[e].held
+  /\ IF clash
+     THEN /\ x' = [x EXCEPT ![e].pc = "done", ![e].status = 400]
+          /\ UNCHANGED <<str, rs, log, recv, issued, h>>
+     ELSE /\ str' = [str EXCEPT ![s][r] = [ex |-> TRUE, reqs |-> {r}, w |-> e, open |-> TRUE,
+                                           lastIdx |-> IF pr THEN 0 ELSE -1, json |-> Json, pend |-> <<>>]]
+          /\ rs' = [rs EXCEPT ![s] = @ \cup {r}]
+          /\ log' = IF pr THEN [log EXCEPT ![s][r] = <<PrimePl(s, r)>>] ELSE log
+          /\ recv' = IF pr /\ ~x[e].cut THEN [recv EXCEPT ![e] = <<[idx |-> 0, pl |-> PrimePl(s, r)]>>] ELSE recv
+          /\ issued' = IF pr /\ ~x[e].cut THEN [issued EXCEPT ![s][r] = {0}] ELSE issued
+          /\ x' = [x EXCEPT ![e].pc = "hang", ![e].status = 200]
+          /\ h' = [h EXCEPT ![s][r].pc = "run"]
   /\ UNCHANGED <<cfg, alive, tmp, lock, tlock, wr, nsa, okEnd>>
 
 \* the handler of (s, r) sends a request-scoped notification (blocks until Write returns)
@@ -155,9 +173,26 @@ Sa(s, g) ==
   /\ nsa' = [nsa EXCEPT ![s] = @ + 1]
   /\ UNCHANGED <<cfg, alive, str, tmp, rs, log, lock, tlock, x, recv, h, issued, okEnd>>
 
+\* the handler calls Server.ResourceUpdated with its own context: every (subscribed, live) session is
+\* notified; for each of them the message is issued outside any of ITS requests
+HBcast(s, r) ==
+  /\ h[s][r].pc = "run" /\ h[s][r].b < MaxBc /\ ~Stateless
+  /\ \A s2 \in Sess : wr[s2]["bc"].pc = "idle"
+  /\ wr' = [s2 \in Sess |-> IF alive[s2]
+                THEN [wr[s2] EXCEPT !["bc"] = [NoWrite EXCEPT !.pc = "route",
+                         !.pl = [s |-> s2, o |-> r, k |-> "bcast", n |-> h[s][r].b + 1, os |-> s]]]
+                ELSE wr[s2]]
+  /\ h' = [h EXCEPT ![s][r].pc = "busyb", ![s][r].b = @ + 1]
+  /\ UNCHANGED <<cfg, alive, str, tmp, rs, log, lock, tlock, x, recv, nsa, issued, okEnd>>
+
+BcastDone(s, r) ==
+  /\ h[s][r].pc = "busyb" /\ \A s2 \in Sess : wr[s2]["bc"].pc = "idle"
+  /\ h' = [h EXCEPT ![s][r].pc = "run"]
+  /\ UNCHANGED <<cfg, alive, str, tmp, rs, log, lock, tlock, x, recv, wr, nsa, issued, okEnd>>
+
 \* the write of origin o has returned to its caller
 HandlerAfter(hh, s, o, ok) ==
-  IF o = "sa" THEN hh
+  IF o \in {"sa", "bc"} THEN hh
   ELSE [hh EXCEPT ![s][o].pc = CASE @ = "busy" -> "run"
                                  [] @ = "busyq" -> IF ok THEN "wait" ELSE "run"
                                  [] @ = "ret" -> "done"
@@ -166,7 +201,7 @@ HandlerAfter(hh, s, o, ok) ==
 \* Write, first critical section (c.mu): routing
 WRoute(s, o) ==
   LET w == wr[s][o]
-      rel == IF w.resp THEN o ELSE IF Json \/ o = "sa" THEN None ELSE o
+      rel == IF w.resp THEN o ELSE IF Json \/ o \in {"sa", "bc"} THEN None ELSE o
       tgt == IF rel # None THEN (IF rel \in rs[s] /\ str[s][rel].ex THEN rel ELSE None) ELSE "sa"
       refused == w.pl.k = "sreq" /\ Stateless
   IN
@@ -273,7 +308,7 @@ AcqCS(g) ==
 
 \* the client disconnects: the request context of that exchange is cancelled
 Cut(e) ==
-  /\ x[e].pc \in {"lock", "cs", "hang", "rel", "closing"} /\ ~x[e].cut
+  /\ x[e].pc \in {"open", "lock", "cs", "hang", "rel", "closing"} /\ ~x[e].cut
   /\ x' = [x EXCEPT ![e].cut = TRUE]
   /\ UNCHANGED <<cfg, alive, str, tmp, rs, log, lock, tlock, recv, h, wr, nsa, issued, okEnd>>
 
@@ -309,25 +344,30 @@ SessClosed(e) ==
 Del(s) ==
   /\ alive[s] /\ ~Stateless
   /\ \A r \in Reqs : h[s][r].pc \in {"none", "done"}
-  /\ \A o \in Streams : wr[s][o].pc = "idle"
+  /\ \A o \in Origins : wr[s][o].pc = "idle"
+  /\ \A r \in Reqs : x[PX(s, r)].pc # "open"
   /\ alive' = [alive EXCEPT ![s] = FALSE]
   /\ UNCHANGED <<cfg, str, tmp, rs, log, lock, tlock, x, recv, h, wr, nsa, issued, okEnd>>
 
 \* the environment opens every gate it holds
 GateOpen ==
-  /\ (\E s \in Sess, o \in Streams : wr[s][o].held) \/ (\E g \in Gets : x[g].held)
-  /\ wr' = [s \in Sess |-> [o \in Streams |-> [wr[s][o] EXCEPT !.held = FALSE]]]
+  /\ (\E s \in Sess, o \in Origins : wr[s][o].held) \/ (\E e \in Exch : x[e].held)
+  /\ wr' = [s \in Sess |-> [o \in Origins |-> [wr[s][o] EXCEPT !.held = FALSE]]]
   /\ x' = [e \in Exch |-> [x[e] EXCEPT !.held = FALSE]]
   /\ UNCHANGED <<cfg, alive, str, tmp, rs, log, lock, tlock, recv, h, nsa, issued, okEnd>>
 
 -----------------------------------------------------------------------------
 SdkNext ==
-  \/ \E s \in Sess, o \in Streams : WRoute(s, o) \/ WLock(s, o) \/ WCS(s, o)
+  \/ \E s \in Sess, o \in Origins : WRoute(s, o) \/ WLock(s, o) \/ WCS(s, o)
+  \/ \E s \in Sess, r \in Reqs : PostReg(s, r) \/ BcastDone(s, r)
   \/ \E g \in Gets : AcqLookup(g) \/ AcqLock(g) \/ AcqCS(g)
   \/ \E e \in Exch : Wake(e) \/ Rel(e) \/ SessClosed(e)
 \* ENABLED SdkNext, written out (cheaper for TLC; StreamSrvMC checks the equivalence)
 SdkEnabled ==
-  \/ \E s \in Sess, o \in Streams :
+  \/ \E s \in Sess, r \in Reqs :
+        \/ x[PX(s, r)].pc = "open" /\ ~x[PX(s, r)].held
+        \/ h[s][r].pc = "busyb" /\ \A s2 \in Sess : wr[s2]["bc"].pc = "idle"
+  \/ \E s \in Sess, o \in Origins :
         \/ wr[s][o].pc = "route"
         \/ wr[s][o].pc = "lock" /\ lock[s][wr[s][o].tgt] = None
         \/ wr[s][o].pc = "cs" /\ ~wr[s][o].held
@@ -340,9 +380,9 @@ SdkEnabled ==
         \/ x[e].pc = "rel" /\ lock[x[e].s][x[e].st] = None
         \/ x[e].pc = "closing" /\ h[x[e].s][x[e].st].pc = "done"
 EnvNext ==
-  \/ \E s \in Sess, r \in Reqs : Post(s, r) \/ Ans(s, r) \/ (\E g \in BOOLEAN : HEmit(s, r, g) \/ HSreq(s, r, g) \/ HRet(s, r, g))
+  \/ \E s \in Sess, r \in Reqs : Ans(s, r) \/ HBcast(s, r) \/ (\E g \in BOOLEAN : PostStart(s, r, g) \/ HEmit(s, r, g) \/ HSreq(s, r, g) \/ HRet(s, r, g))
   \/ \E s \in Sess, g \in BOOLEAN : Sa(s, g)
-  \/ \E g \in Gets, s \in Sess, t \in Streams, i \in -1..(MaxEmit + MaxSreq + MaxSa + 2), hg \in BOOLEAN : Get(g, s, t, i, hg)
+  \/ \E g \in Gets, s \in Sess, t \in Streams, i \in -1..(MaxEmit + MaxSreq + MaxSa + 3 * MaxBc + 2), hg \in BOOLEAN : Get(g, s, t, i, hg)
   \/ \E e \in Exch : Cut(e)
   \/ \E s \in Sess : Del(s)
   \/ GateOpen
@@ -379,14 +419,18 @@ RefusedOnlyOnConflict == \A g \in Gets : x[g].pc # "idle" => x[g].status \in {0,
 ResponseOnOwnExchange == \A e \in Exch : \A j \in 1..Len(recv[e]) :
      recv[e][j].pl.k = "resp" => recv[e][j].pl.s = x[e].s /\ recv[e][j].pl.o = x[e].st
 NestedRouting == \A e \in Exch : \A j \in 1..Len(recv[e]) :
-     recv[e][j].pl.k \in {"notif", "sreq"} =>
-        /\ recv[e][j].pl.s = x[e].s
-        /\ IF recv[e][j].pl.o = "sa" \/ Json THEN x[e].st = "sa" ELSE x[e].st = recv[e][j].pl.o
+     /\ recv[e][j].pl.k \in {"notif", "sreq"} =>
+          /\ recv[e][j].pl.s = x[e].s
+          /\ IF recv[e][j].pl.o = "sa" \/ Json THEN x[e].st = "sa" ELSE x[e].st = recv[e][j].pl.o
+     \* a broadcast is, for every receiving session, a message outside any of its requests
+     /\ recv[e][j].pl.k = "bcast" => x[e].st = "sa"
 NoCrossSession == \A e \in Exch : \A j \in 1..Len(recv[e]) : recv[e][j].pl.s = x[e].s
 \* a response is written at most once per request and only after its stream was registered
-RoutingEntryLifecycle == \A s \in Sess, r \in Reqs : r \in rs[s] => h[s][r].pc \in {"run", "busy", "busyq", "wait", "ret"}
+RoutingEntryLifecycle == \A s \in Sess, r \in Reqs : r \in rs[s] => h[s][r].pc \in {"run", "busy", "busyq", "busyb", "wait", "ret"}
+\* duplicate in-flight ids are refused atomically: at most one registered request per JSON-RPC id and session
+IdUnique == \A s \in Sess : \A q1, q2 \in rs[s] : WireId(q1) = WireId(q2) => q1 = q2
 LockDiscipline == \A s \in Sess, t \in Streams :
-     /\ lock[s][t] # None => (\E o \in Streams : lock[s][t] = WName(s, o) /\ wr[s][o].pc = "cs" /\ wr[s][o].tgt = t)
+     /\ lock[s][t] # None => (\E o \in Origins : lock[s][t] = WName(s, o) /\ wr[s][o].pc = "cs" /\ wr[s][o].tgt = t)
                              \/ (\E g \in Gets : lock[s][t] = g /\ x[g].pc = "cs" /\ x[g].obj = "real")
      /\ tlock[s][t] # None => \E g \in Gets : tlock[s][t] = g /\ x[g].pc = "cs" /\ x[g].obj # "real"
 =============================================================================
